@@ -32,6 +32,8 @@ func rulesC16(c *Ctx) {
 	c.vocabProblems("R1")
 	c.ruleSigsAfterSpent("R6")
 	c.c16LimitsAreConfigured()
+	R.Rule("R9", "the issued total counts everything that was handed out: signatures are returned only after they were saved, and a failed save is an error (shared with C06.R5 / C15.R1)", 2)
+	c.ruleSigsSavedForOutputs("R9")
 	R.Rule("R8", "the configured limits survive their own parsing: in the start-up code that builds the limits from the environment no later assignment overwrites a (sub)struct in which a limit was already stored", 1)
 	c.c16ConfigNotOverwritten()
 
